@@ -453,3 +453,28 @@ def public_snapshot(model, agents=(), names=None, cells=False):
         df = env.cells
         out.append(('cells', tuple(df.columns), tuple(tuple(repr(v) for v in df[c].tolist()) for c in df.columns)))
     return tuple(out)
+
+
+def ambient_logger(model):
+    """Ambient configuration (see run.py): with VERIF_LOGGER_LEVEL set, every model the harness builds gets a
+    caller-supplied logger at that level (assigning `model.logger` is what a user who wants another level does; the
+    library's default logger is forced to INFO by every `Model()`)."""
+    import logging
+    import os
+    lvl = os.environ.get('VERIF_LOGGER_LEVEL')
+    if lvl:
+        lg = logging.getLogger(f'verif-ambient-{lvl}')
+        lg.setLevel(int(lvl))
+        lg.propagate = False
+        if not lg.handlers:
+            lg.addHandler(logging.NullHandler())
+        model.logger = lg
+    return model
+
+
+def new_model(seed=None, cls=None, **kw):
+    """Every model a harness builds itself goes through here."""
+    if cls is None:
+        import ECAgent.Core as Core
+        cls = Core.Model
+    return ambient_logger(cls(seed=seed, **kw))
